@@ -57,6 +57,24 @@ pub struct Case {
     pub conn_opens: u8,
     pub salt: u64,
     pub close: Option<CloseSpec>,
+    /// C01: transport write script (short writes / would-block), applied from the first byte
+    #[serde(default)]
+    pub wscript: Vec<crate::wire::WStep>,
+    /// C01: client-side frame_max (server offers 131072) and in-memory channel bound
+    #[serde(default)]
+    pub frame_max: u32,
+    #[serde(default)]
+    pub mem_bound: u8,
+    /// C01: thread assignment per channel (channels with the same number share a thread); empty =
+    /// one thread per channel
+    #[serde(default)]
+    pub group: Vec<u8>,
+    /// C01: which of a thread's channels issues the next op
+    #[serde(default)]
+    pub turn: Vec<u16>,
+    /// C01: the write script is applied this many times in a row (0 = once)
+    #[serde(default)]
+    pub wcycles: u8,
 }
 
 pub struct Broker {
@@ -196,6 +214,9 @@ impl Responder for Broker {
         }
     }
     fn on_tick(&mut self, io: &mut BrokerIo) {
+        if io.wire.is_held() {
+            io.wire.grant(0);
+        }
         // nothing new for a while: every channel that can make progress is waiting for us
         if self.last_activity.elapsed() > Duration::from_millis(6) {
             self.pump(io, true);
@@ -232,11 +253,30 @@ pub fn exec(c: &Case) -> Outcome {
         closed_with_call_in_flight: false,
         closed_while_other_in_flight: false,
     };
-    let mut sess = open_session(&ClientCfg::default(), ServerCfg::default(), vec![], broker);
+    let ccfg = ClientCfg {
+        frame_max: c.frame_max,
+        mem_channel_bound: if c.mem_bound == 0 { 16 } else { c.mem_bound as usize },
+        ..Default::default()
+    };
+    let fmax = crate::checks::c02::negotiated(c.frame_max, 131072);
+    let mut wscript = Vec::new();
+    for _ in 0..c.wcycles.max(1) {
+        wscript.extend(c.wscript.iter().copied());
+    }
+    let mut sess = open_session(&ccfg, ServerCfg::default(), wscript, broker);
     let mut conn = match sess.conn.take() {
         Some(c) => c,
         None => {
+            let hung = sess.open_hung;
+            let written = sess.wire.out_len();
+            sess.wire.push_eof();
             let _ = sess.broker.stop();
+            if hung && !c.wscript.is_empty() {
+                return Outcome::hang(
+                    "handshake-bytes-never-written",
+                    format!("insecure_open_stream did not return under write script {:?}...: {} bytes reached the transport", &c.wscript[..c.wscript.len().min(6)], written),
+                );
+            }
             return Outcome {
                 inconclusive: Some(format!("open failed {:?}", sess.open_error)),
                 ..Default::default()
@@ -266,21 +306,50 @@ pub fn exec(c: &Case) -> Outcome {
         });
     }
     let (tx, rx) = mpsc::channel::<(usize, ChanReport, Channel)>();
-    for (i, ch) in chans.into_iter().enumerate() {
-        let prog = c.programs[i].clone();
+    // group channels into threads
+    let mut groups: Vec<Vec<usize>> = Vec::new();
+    {
+        let mut by_key: Vec<(u8, Vec<usize>)> = Vec::new();
+        for i in 0..nch {
+            let key = if c.group.is_empty() { i as u8 } else { c.group[i % c.group.len()] };
+            match by_key.iter_mut().find(|(k, _)| *k == key) {
+                Some((_, v)) => v.push(i),
+                None => by_key.push((key, vec![i])),
+            }
+        }
+        for (_, v) in by_key {
+            groups.push(v);
+        }
+    }
+    let mut chan_slots: Vec<Option<Channel>> = chans.into_iter().map(Some).collect();
+    for (gi, members) in groups.iter().enumerate() {
+        let mut mine: Vec<(usize, Channel, Vec<Op>)> = members.iter().map(|&i| (i, chan_slots[i].take().unwrap(), c.programs[i].clone())).collect();
         let tx = tx.clone();
         let salt = c.salt;
+        let turn = c.turn.clone();
         std::thread::Builder::new()
-            .name(format!("avh-c04-{}", i))
+            .name(format!("avh-c04-{}", gi))
             .spawn(move || {
-                let mut results = Vec::new();
-                {
-                    let env = ChanEnv { chan: &ch, other: None, salt };
-                    for (k, op) in prog.iter().enumerate() {
-                        results.push(exec_op(&env, op, k));
+                let n = mine.len();
+                let mut pos = vec![0usize; n];
+                let mut results: Vec<Vec<OpResult>> = (0..n).map(|_| Vec::new()).collect();
+                let mut t = 0usize;
+                loop {
+                    let live: Vec<usize> = (0..n).filter(|&j| pos[j] < mine[j].2.len()).collect();
+                    if live.is_empty() {
+                        break;
                     }
+                    let h = if turn.is_empty() { 0 } else { turn[t % turn.len()] };
+                    t += 1;
+                    let j = live[pick(h, live.len())];
+                    let env = ChanEnv { chan: &mine[j].1, other: None, salt };
+                    let k = pos[j];
+                    results[j].push(exec_op(&env, &mine[j].2[k], k));
+                    pos[j] += 1;
                 }
-                let _ = tx.send((i, ChanReport { results }, ch));
+                for (j, (i, ch, _)) in mine.drain(..).enumerate() {
+                    let _ = tx.send((i, ChanReport { results: std::mem::take(&mut results[j]) }, ch));
+                }
             })
             .expect("spawn");
     }
@@ -300,7 +369,7 @@ pub fn exec(c: &Case) -> Outcome {
     let mut reports: Vec<Option<ChanReport>> = (0..nch).map(|_| None).collect();
     let mut back: Vec<Option<Channel>> = (0..nch).map(|_| None).collect();
     for _ in 0..nch {
-        match rx.recv_timeout(Duration::from_secs(30)) {
+        match rx.recv_timeout(Duration::from_secs(14)) {
             Ok((i, r, ch)) => {
                 reports[i] = Some(r);
                 back[i] = Some(ch);
@@ -350,6 +419,12 @@ pub fn exec(c: &Case) -> Outcome {
             return Outcome::fail("io-thread-panic", format!("{:?}", p));
         }
     }
+    if !c.wscript.is_empty() {
+        // C01: whatever else happened, the outbound log must be header + whole frames
+        if let Err((s, m)) = check_stream_wellformed(&wire.out_snapshot()) {
+            return Outcome::fail(s, m);
+        }
+    }
     match close {
         Some(Ok(())) => {}
         Some(Err(Error::EventLoopClientDropped)) => {
@@ -388,7 +463,7 @@ pub fn exec(c: &Case) -> Outcome {
         let mut may_be_swallowed = false;
         for (k, op) in c.programs[i].iter().enumerate() {
             let seq_before = seq;
-            let (v, _) = expected_frames(op, chid, c.salt, k, 131072 - 8, &mut seq, None);
+            let (v, _) = expected_frames(op, chid, c.salt, k, fmax as usize - 8, &mut seq, None);
             if matches!(op, Op::Consume { explicit_cancel: false, .. }) {
                 may_be_swallowed = true;
             }
@@ -452,7 +527,7 @@ pub fn exec(c: &Case) -> Outcome {
             return Outcome::fail("channel-frames-missing", format!("channel {}", chid));
         }
         if !closed_here {
-            if let Err((s, m)) = match_frames(&frames[1..], &exp_frames, 131072) {
+            if let Err((s, m)) = match_frames(&frames[1..], &exp_frames, fmax) {
                 return Outcome::fail(s, format!("channel {}: {}", chid, m));
             }
         } else {
@@ -509,6 +584,37 @@ pub fn exec(c: &Case) -> Outcome {
             }
         }
     }
+    // C01: measure which write calls ended strictly inside a frame
+    let mut split_writes = 0usize;
+    let mut blocks = 0usize;
+    {
+        let st = wire.lock();
+        let bounds: std::collections::HashSet<usize> = d.frames.iter().map(|(r, _)| r.end()).chain(std::iter::once(8)).collect();
+        for (off, len, _) in &st.write_calls {
+            if !bounds.contains(&(off + len)) {
+                split_writes += 1;
+            }
+        }
+        blocks = st.n_holds;
+        let _ = &mut blocks;
+    }
+    let channels_that_wrote = chans_w.keys().filter(|k| **k != 0).count();
+    if !c.wscript.is_empty() {
+        let mut o = Outcome::pass(split_writes >= 1 && channels_that_wrote >= 2);
+        if split_writes >= 1 {
+            o.labels.push("write-ended-inside-frame".into());
+        }
+        if blocks >= 1 {
+            o.labels.push("would-block-hold".into());
+        }
+        if channels_that_wrote >= 2 {
+            o.labels.push("several-channels-wrote".into());
+        }
+        if groups.iter().any(|g| g.len() >= 2) {
+            o.labels.push("two-channels-on-one-thread".into());
+        }
+        return o;
+    }
     // non-triviality: replies released in an order different from arrival, with >= 2 in flight
     let reordered = b.released_order.windows(2).any(|w| w[0] > w[1]);
     let mut o;
@@ -562,6 +668,12 @@ fn base_strat(with_close: bool) -> BoxedStrategy<Case> {
             conn_opens,
             salt,
             close,
+            wscript: Vec::new(),
+            frame_max: 0,
+            mem_bound: 0,
+            group: Vec::new(),
+            turn: Vec::new(),
+            wcycles: 0,
         })
         .boxed()
 }
@@ -573,6 +685,62 @@ pub fn parts() -> Vec<Box<dyn PartDyn>> {
         cases: |t| t.pick(600, 15_000),
         threads: 12,
         strategy: |_t| base_strat(false),
+        exec,
+        enumerate: None,
+        shrink_budget: 150,
+        confirm_runs: 2,
+    })]
+}
+
+fn c01_strat() -> BoxedStrategy<Case> {
+    use crate::wire::WStep;
+    let prog = vec(op_strategy(20_000, false, false), 1..25);
+    let wstep = prop_oneof![
+        6 => prop::sample::select(vec![1usize, 2, 3, 7, 8, 9]).prop_map(WStep::Accept),
+        4 => (1usize..20_000).prop_map(WStep::Accept),
+        2 => Just(WStep::BlockRearm),
+        2 => Just(WStep::BlockHold),
+    ];
+    (
+        vec(prog, 1..=6),
+        vec(0u8..4, 1..=6),
+        vec(any::<u16>(), 0..12),
+        vec(wstep, 0..200),
+        prop::sample::select(vec![4096u32, 4097, 8192, 0]),
+        1u8..=16,
+        any::<u64>(),
+        prop::sample::select(vec![1u8, 1, 2, 5, 20]),
+    )
+        .prop_map(|(programs, group, turn, mut wscript, frame_max, mem_bound, salt, wcycles)| {
+            if wscript.is_empty() {
+                wscript.push(WStep::Accept(7));
+            }
+            Case {
+                programs,
+                hold: 1,
+                release: Vec::new(),
+                glue: Vec::new(),
+                conn_opens: 0,
+                salt,
+                close: None,
+                wscript,
+                frame_max,
+                mem_bound,
+                group,
+                turn,
+                wcycles,
+            }
+        })
+        .boxed()
+}
+
+pub fn parts_c01() -> Vec<Box<dyn PartDyn>> {
+    vec![Box::new(Part::<Case> {
+        name: "e2e",
+        rule: "programs of 1-24 client ops (publishes with bodies up to 20 000 bytes and generated properties, every nowait method, synchronous calls, gets/consumes) on 1-6 channels spread over 1-4 client threads (up to two channels interleaved on one thread), client frame_max in {4096, 4097, 8192, unlimited}, mem_channel_bound 1-16, against a transport write script of up to 200 entries (short writes of 1/2/3/7/8/9 or up to 20 000 bytes, would-block with immediate re-arm, would-block held until granted) that applies from the first byte of the protocol header; oracle on the complete outbound log after close: 8-byte protocol header, then only whole well-formed frames with nothing trailing (independent envelope parser), and per channel exactly the concatenation of the frames each op must emit, in issue order (expectation table shared with C12) - which rules out loss, duplication, reordering and intra-frame interleaving; non-trivial = >= 2 channels wrote and >= 1 write call ended strictly inside a frame (measured from the write-size log); distinct by case hash",
+        cases: |t| t.pick(1200, 30_000),
+        threads: 12,
+        strategy: |_t| c01_strat(),
         exec,
         enumerate: None,
         shrink_budget: 150,
